@@ -1,4 +1,5 @@
 mod common;
+mod c09;
 mod c17;
 mod c18;
 mod c12;
@@ -41,6 +42,8 @@ fn main() {
         "C18" => c18::run(&args),
         "C17" => c17::run(&args),
         "C17child" => c17::child_run(&args.rest),
+        "C09" => c09::run(&args),
+        "C09child" => c09::child_run(&args.rest),
         x => {
             eprintln!("unknown property {}", x);
             std::process::exit(2);
